@@ -14,7 +14,7 @@ from ..ref import isa, sigmsg
 ID = 'C15'
 BUILDER_DEFAULTS = True     # tools.* goes through tsverif/omit.py
 RULE = ('scenarios = receiver / refund / outsider seeds x preimage length '
-        '1..64 x digest size x timeout {0,1,60,86400,10^6} x t in {deadline-1, '
+        '1..64 x digest size x timeout {0,1,60,86400,10^6,5*10^8,3*10^9,2^40} x t in {deadline-1, '
         'deadline, deadline+1} x now in {t-61, t-60, t-59, t, t+10^6} x tweak '
         'scalars x sigfields x (flag, allowed); six lock kinds (htlc/htlc2 x '
         'sha256/shake256, ptlc, ptlc+tweak) x four witness kinds, matching '
@@ -89,7 +89,9 @@ def scenario(ctx, rng, j):
     if wrong == pre:
         wrong = bytes([pre[0] ^ 1]) + pre[1:]
     hs = rng.choice((1, 8, 16, 20, 32, 64))
-    timeout = rng.choice((0, 1, 60, 86400, 10**6))
+    # ... and deadlines beyond 2^31 / 2^32 / 2^40 (five- and six-byte operands)
+    timeout = rng.choice((0, 1, 60, 86400, 10**6, 10**6, 5 * 10**8,
+                          3 * 10**9, 2**40))
     deadline = NOW0 + timeout
     t = deadline + rng.choice((-1, 0, 1, 1, 5000))
     sl = Cfg.slack
